@@ -434,7 +434,7 @@ let c04 (payload : string) : string =
   let decodable _ (args : nat) = (let (_, _, dec, _, _, _) = find_req args in dec = "1") in
   let handler _ _ (args : nat) = (let (_, _, _, h, _, _) = find_req args in
     let id = nat_of_int (int_of_string (String.sub h 1 (String.length h - 1))) in
-    match h.[0] with 'r' -> HReply args | 'f' -> HFail id | _ -> HPanic id) in
+    match h.[0] with 'r' -> HReply args | 'f' -> HFail id | 'v' -> HVeto id | _ -> HPanic id) in
   ignore cur_args;
   (* the response metadata the handler sets: one entry (key 1 = "trace-id", value = the request id) *)
   let hmeta _ _ (args : nat) = if Hashtbl.mem setsmeta (int_of_nat args) then [(nat_of_int 1, args)] else [] in
